@@ -9,6 +9,7 @@ package portres
 import (
 	"context"
 	"fmt"
+	"math/rand"
 	"net"
 	"sync"
 	"syscall"
@@ -48,10 +49,30 @@ func Reserve() (*Port, error) {
 	// SO_REUSEADDR as well: a plain net.Listen of the owner (which sets SO_REUSEADDR, not SO_REUSEPORT) can then bind the
 	// port too, because the reservation never listens; the kernel still does not hand the port to anyone binding port 0.
 	syscall.SetsockoptInt(fd, syscall.SOL_SOCKET, syscall.SO_REUSEADDR, 1)
-	sa := &syscall.SockaddrInet4{Port: 0, Addr: [4]byte{127, 0, 0, 1}}
-	if err := syscall.Bind(fd, sa); err != nil {
-		syscall.Close(fd)
-		return nil, err
+	// The port is drawn from below the kernel's ephemeral range (32768-60999 here): a port the kernel hands out for port 0 may
+	// have been, a moment ago, the listener of a foreign process whose peers still knock (seen: health checkers and SCAN
+	// iterations of the repository's own tests, run by someone else on the same machine, reaching the simulated nodes of C12
+	// and the connection limit of C20). Which port is drawn never matters to a property, so this is not part of the seeded run.
+	// An explicit port with SO_REUSEPORT would be shared with another process's reservation, hence the probe without options.
+	bound := false
+	for try := 0; try < 64 && !bound; try++ {
+		sa := &syscall.SockaddrInet4{Port: 10000 + rand.Intn(22000), Addr: [4]byte{127, 0, 0, 1}}
+		probe, err := syscall.Socket(syscall.AF_INET, syscall.SOCK_STREAM|syscall.SOCK_CLOEXEC, 0)
+		if err != nil {
+			break
+		}
+		free := syscall.Bind(probe, sa) == nil
+		syscall.Close(probe)
+		if free {
+			bound = syscall.Bind(fd, sa) == nil
+		}
+	}
+	if !bound {
+		sa := &syscall.SockaddrInet4{Port: 0, Addr: [4]byte{127, 0, 0, 1}}
+		if err := syscall.Bind(fd, sa); err != nil {
+			syscall.Close(fd)
+			return nil, err
+		}
 	}
 	got, err := syscall.Getsockname(fd)
 	if err != nil {
